@@ -399,6 +399,23 @@ class TimestampProperty(Property):
         ), False
 
 
+def _check_no_null_or_empty_list(value):
+    """
+    STIX forbids null values and empty lists everywhere, including inside the
+    values of a dictionary.
+    """
+    if value is None:
+        raise ValueError("must not contain null values.")
+    if isinstance(value, collections.abc.Mapping):
+        for v in value.values():
+            _check_no_null_or_empty_list(v)
+    elif isinstance(value, list):
+        if len(value) < 1:
+            raise ValueError("must not contain empty lists.")
+        for v in value:
+            _check_no_null_or_empty_list(v)
+
+
 class DictionaryProperty(Property):
 
     def __init__(self, spec_version=DEFAULT_VERSION, **kwargs):
@@ -429,6 +446,8 @@ class DictionaryProperty(Property):
 
         if len(dictified) < 1:
             raise ValueError("must not be empty.")
+
+        _check_no_null_or_empty_list(dictified)
 
         return dictified, False
 
